@@ -302,6 +302,51 @@ class SqlTrace(object):
 
 
 # ---------------------------------------------------------------------------
+# argument ledger: which public petl functions the check called, and with which keyword arguments
+
+class ArgLedger(object):
+    """wraps the functions in the `petl` namespace (the names the checks call through) so that every call from the harness is
+    counted together with the keyword arguments it passed; calls inside petl bind the original functions and are not counted"""
+
+    def __init__(self):
+        self.calls = {}
+        self.kwargs = {}
+        self._saved = {}
+
+    def install(self):
+        import inspect
+        import petl
+        calls, kwargs = self.calls, self.kwargs
+        for name, fn in list(vars(petl).items()):
+            if name.startswith('_') or not inspect.isfunction(fn) or not getattr(fn, '__module__', '').startswith('petl.'):
+                continue
+
+            def mk(name, fn):
+                def wrapper(*a, **k):
+                    calls[name] = calls.get(name, 0) + 1
+                    if k:
+                        d = kwargs.setdefault(name, {})
+                        for kk in k:
+                            d[kk] = d.get(kk, 0) + 1
+                    return fn(*a, **k)
+                wrapper.__name__ = getattr(fn, '__name__', name)
+                wrapper.__doc__ = fn.__doc__
+                wrapper.__wrapped__ = fn
+                return wrapper
+            self._saved[name] = fn
+            setattr(petl, name, mk(name, fn))
+
+    def remove(self):
+        import petl
+        for name, fn in self._saved.items():
+            setattr(petl, name, fn)
+        self._saved = {}
+
+    def dump(self):
+        return {'calls': dict(self.calls), 'kwargs': {k: dict(v) for k, v in self.kwargs.items()}}
+
+
+# ---------------------------------------------------------------------------
 
 def selftest():
     """every probe must fire on a deliberate stimulus; otherwise the run is
